@@ -172,6 +172,12 @@ func prefixCompat(sz types.Sizes, src, dst *types.Struct) string {
 		if !types.Identical(a.Type(), b.Type()) && !types.Identical(a.Type().Underlying(), b.Type().Underlying()) {
 			return fmt.Sprintf("field #%d %s has type %s in the source but %s is %s in the view", i, a.Name(), typeName(a.Type()), b.Name(), typeName(b.Type()))
 		}
+		// an interface value carries a method table that is specific to the (interface type, dynamic type) pair: a value
+		// stored through a view whose field has another named interface type — even one with the same method set — is
+		// read back with a foreign table, and type assertions / == on the field then deny the dynamic type it has
+		if _, isIface := types.Unalias(a.Type()).Underlying().(*types.Interface); isIface && !types.Identical(a.Type(), b.Type()) {
+			return fmt.Sprintf("field #%d %s is the interface type %s in the source but %s in the view: a value written through one and read through the other keeps the other interface's method table, so `x.%s.(T)` and `x.%s == v` fail although the dynamic type is T (not field-faithful)", i, a.Name(), typeName(a.Type()), typeName(b.Type()), a.Name(), a.Name())
+		}
 		if a.Name() != b.Name() && !c08Renames[[2]string{a.Name(), b.Name()}] {
 			return fmt.Sprintf("field #%d is %s in the source but %s in the view (same offset, different property)", i, a.Name(), b.Name())
 		}
